@@ -13,7 +13,7 @@ use yash_env::system::r#virtual::FileBody;
 pub const INFO: PropInfo = PropInfo {
     id: "C19",
     level: "exploration",
-    rule: "cases = deterministic scripts of 3-10 statements from a catalogue of ~110 statement templates over the built-ins that exist on both systems plus probe built-ins: file creation/truncation/append/<> /noclobber through redirections, exec fd duplication and closing with later use, cd and ${PWD##*/}, globbing over created files and symlinks, pipelines whose consumers read to EOF, command substitution, here-documents, read, subshells changing cwd/umask, umask + file creation (modes compared), traps with self-signals, background jobs + wait/$!, pipefail, error cases (missing file, closed descriptor, directory in place of a file, path through a file). The same initial tree is materialised on both sides. Oracle (differential): stdout, exit status (incl. death by signal), stderr emptiness and the final tree (names, types, contents, permission bits) are identical. Non-trivial = the script has >= 3 statements and mutates the file system or creates a child process; distinct by serialised case.",
+    rule: "cases = deterministic scripts of 3-10 statements from a catalogue of ~130 statement templates over the built-ins that exist on both systems plus probe built-ins: file creation/truncation/append/<> /noclobber through redirections, exec fd duplication and closing with later use, cd and ${PWD##*/}, globbing over created files and symlinks, pipelines whose consumers read to EOF, command substitution, here-documents, read, subshells changing cwd/umask, umask + file creation (modes compared), traps with self-signals, background jobs + wait/$!, pipefail, error cases (missing file, closed descriptor, directory in place of a file, path through a file). The same initial tree is materialised on both sides. Oracle (differential): stdout, exit status (incl. death by signal), stderr emptiness and the final tree (names, types, contents, permission bits) are identical. Non-trivial = the script has >= 3 statements and mutates the file system or creates a child process; distinct by serialised case.",
     assumptions: &[
         "no dependence on pids, times, uid, absolute paths or error message text; the sandbox runs as root, so permission-denied behaviour is not exercised",
         "the real OS runs each script under its one natural schedule",
@@ -53,6 +53,8 @@ pub const STATEMENTS: &[&str] = &[
     // a trapped signal arriving between two forks of one simple command
     "trap 'echo T1' USR1; x=$(kill -s USR1 $$)$(echo sub; exit 7); echo \"$x $?\"", "trap 'echo T3' USR2; echo $(kill -s USR2 $$; echo a) $(echo b)",
     "trap 'echo T4' USR1; : $(kill -s USR1 $$) | cat; echo after",
+    // command search: a directory (or a non-executable file) with the command's name in PATH is not the command
+    "PATH=$W:$PATH; d1; echo $?", "PATH=$W/d1:$W:$PATH d2; echo $?", "PATH=$W:$PATH; f0; echo $?",
 ];
 
 #[derive(Clone, Debug, PartialEq, Eq, Hash, Serialize, Deserialize)]
